@@ -1036,7 +1036,7 @@ PROPS["C08"] = dict(
                "default markers and defaultable must come together (the three mismatches cannot yield Ok); rustc's `v as _` under repr(base) is v for in-range v "
                "(cast_in_range). Out-of-range discriminants are the listed known finding F2 (C08_range_refuted shows it on the model; the repository's own test pins it). "
                "Correspondence compares repr, derives, variant names/literals/default attribute and the registry; the monitor recomputes intended values from the description.",
-    level_note="Trusted: Coq kernel; model validated by this run's correspondence; cast semantics of `as _` is RustLayout.cast_discr (spec side).",
+    level_note="Trusted: Coq kernel; model validated by this run's correspondence; cast semantics of `as _` is RustLayout.cast_discr (spec side); rustc on a sample per run: size/alignment of the emitted enums and, through one constant per variant, the compiled discriminant VALUES at pointer width 4 and 8 (nightly, no core, *-pc-windows-msvc).",
     kf_class="KF_discr_out_of_range",
     layout_oracle=True,
 )
@@ -1167,7 +1167,7 @@ PROPS["C13"] = dict(
                "Default is satisfiable for defaultable types. Whether rustc accepts the whole crate is NOT a theorem: it is decided on every run by rustc itself on the implementation's emitted files (the monitor/oracle). "
                "On the unchanged tree rustc rejects only inputs in listed known-finding classes (F9, F10, F12a-c, F13, F14, F17, F19), each recognised by error code plus a predicate on the input; any other rejection is a violation.",
     level_note="Trusted: Coq kernel for the partial theorems; rustc 1.95 (host, 64-bit) as the authority on type-checking; the crate assembly of tools/rustc_oracle.py (module tree, supplied extern types, ABI normalisation as the property allows). "
-               "Struct/enum definitions for i686-pc-windows-msvc are not compiled in this check (layout at pointer width 4 is covered by C01/C02's independent calculator).",
+               "The struct/enum definitions of the same inputs regenerated at pointer width 4 are additionally compiled for i686-pc-windows-msvc by the nightly compiler without the core library (real ABI strings kept); function bodies are not compiled for a 32-bit target.",
     technique="Coq proofs of the clauses pyxis itself must guarantee + rustc type-check oracle on the emitted crate",
 )
 
@@ -1282,9 +1282,9 @@ PROPS["C01"].update(
                "(C01 theorems in coq/Properties/C01.v). The model is tied to /repo on every run by the correspondence "
                "check (same inputs through real pyxis and the extracted model, struct fields/types/repr compared) and "
                "the declared offsets are re-derived from the implementation's own emitted files by an independent layout "
-               "calculator (monitor). C01_whole_build: the same end to end -- every struct of every accepted build (any schedule, width, modules; input collision_free, decidable, false without it: F4b), with the sizes of the FINAL registry.",
+               "calculator (monitor). C01_whole_build: the same end to end -- every struct of every accepted build (any schedule, width, modules; input collision_free, decidable, false without it: F4b), with the sizes of the FINAL registry. C01_emitted_struct: the same about the EMITTED item -- the module's file contains the struct (one field per region with its name, type tokens, visibility, docs; repr; derives) and its size check, and the Reference layout computed from that emitted item gives the resolved size/alignment and the declared offsets.",
     level_note="Trusted: Coq kernel; the hand-written model (validated by correspondence on generated inputs only); RustLayout.v as "
-               "a transcription of the Rust Reference (validated by the independent calculator tools/pylayout.py on the real files and, at pointer width 8, by rustc itself: the emitted crate is compiled with const assertions offset_of!(T, f) == declared address, 40 crates quick / 600 thorough; no rustc oracle at width 4); "
+               "a transcription of the Rust Reference (validated by the independent calculator tools/pylayout.py on the real files and, at pointer width 8, by rustc itself: the emitted crate is compiled with const assertions offset_of!(T, f) == declared address, 40 crates quick / 600 thorough; at pointer width 4 (and 8 again) by the nightly compiler without core for i686-/x86_64-pc-windows-msvc on the emitted struct/enum definitions, -Zprint-type-sizes offsets compared with the declared ones, 80 crates quick / 1200 thorough); "
                "by-value void fields are a known finding class (F9) and excluded.",
 )
 PROPS["C02"].update(
@@ -1295,7 +1295,7 @@ PROPS["C02"].update(
                "registry (size, alignment per item, read through the public API), repr attributes and size-check literals; "
                "the monitor recomputes every emitted item's layout from the implementation's files. C02_whole_build / C02_items_come_from_attempts / C02_sizes_never_change: end to end for every accepted collision_free build -- every item comes from one attempt whose known sizes are unchanged in the final registry. Generated vftable structs (EmitVftLayout.v): C02_emitted_vftable_size_align -- the Reference layout computed from the EMITTED <T>Vftable struct equals the size/alignment of the generated item in the final registry (n*ptr, ptr) and what size_of/align_of answer for the type; the emitted size check asserts the same number.",
     level_note="Trusted: Coq kernel; hand-written model validated by the correspondence of this run; RustLayout.v is a transcription of the Reference "
-               "(checked against pylayout on the real files and, at pointer width 8, against rustc itself: const assertions size_of/align_of == resolved on the emitted crate, 40 crates quick / 600 thorough), not proved against rustc.",
+               "(checked against pylayout on the real files and, at pointer width 8, against rustc itself: const assertions size_of/align_of == resolved on the emitted crate, 40 crates quick / 600 thorough; at pointer width 4 and 8 against the nightly compiler's -Zprint-type-sizes for i686-/x86_64-pc-windows-msvc on the emitted definitions compiled without core, 80 crates quick / 1200 thorough), not proved against rustc.",
 )
 
 # ------------------------------------------------------------------------------------------------
